@@ -125,13 +125,12 @@ def main():
     for extra_v in getattr(mod, 'COQ_PROPS_EXTRA', []):
         files = sorted(set(files) | set(closure(extra_v)))
     vo = os.path.join(COQ, vfile[:-2] + '.vo')
-    extra_stale = False
-    for extra_v in getattr(mod, 'COQ_PROPS_EXTRA', []):
-        evo = os.path.join(COQ, extra_v[:-2] + '.vo')
-        if not os.path.exists(evo) or os.path.getmtime(os.path.join(COQ, extra_v)) > os.path.getmtime(evo):
-            extra_stale = True
-    stale = extra_stale or (not os.path.exists(vo)) or any(
-        os.path.getmtime(os.path.join(COQ, f)) > os.path.getmtime(vo) for f in files if os.path.exists(os.path.join(COQ, f)))
+    def is_stale(v):
+        vo_ = os.path.join(COQ, v[:-2] + '.vo')
+        if not os.path.exists(vo_): return True
+        return any(os.path.getmtime(os.path.join(COQ, f)) > os.path.getmtime(vo_)
+                   for f in closure(v) if os.path.exists(os.path.join(COQ, f)))
+    stale = any(is_stale(v) for v in [vfile] + list(getattr(mod, 'COQ_PROPS_EXTRA', [])))
     failed_files = re.findall(r'File "\./([^"]+)", line (\d+)[^\n]*\n((?:.*\n){0,6})', bout)
     if stale:
         mine = [(f, l, msg) for f, l, msg in failed_files if f in files]
